@@ -109,7 +109,9 @@ def history_of(lines, ln):
 
 def validate(trace_path, parallel, timeout=1500, heap="3g"):
     """Like vlib.validate_trace, but also returns the KNOWN-SHAPE reports {shape: {trace_line}}."""
-    chunks = vlib.split_histories(trace_path, parallel)
+    # chunks of about 5000 lines: the P7 memo of the trace spec is searched linearly
+    total_lines = sum(1 for _ in open(trace_path))
+    chunks = vlib.split_histories(trace_path, max(parallel, (total_lines + 4999) // 5000))
     gen = dist = nlines = 0
     shapes = {}
 
@@ -288,7 +290,7 @@ def run(ctx):
 
     # 3. impl -> spec: recorded random histories validated line by line
     ctx.leg = "trace"
-    nh, nc = (1200, 12) if q else (12000, 14)
+    nh, nc = (1200, 12) if q else (10000, 14)
     ctx.params = {"histories": nh, "calls": nc}
     d = vlib.scratch(PROP + "-rec")
     trace = os.path.join(d, "partialord.ndjson")
